@@ -304,6 +304,7 @@ for key, mod in FRONT.items():
     K("c19_parse_exponent_10", mod, ["C19"], "%s parse_exponent on 10 digits (the i32 range ends here): clamp, never panics" % src, [src + "::parse_exponent"], strength="bounded", bound="10 exponent digits, all digit values", features=["default"], timeout=1800, id_suffix=key, tier="thorough")
     K("c19_parse_exponent_11", mod, ["C19"], "%s parse_exponent on 11 digits: always saturates or clamps, never panics" % src, [src + "::parse_exponent"], strength="bounded", bound="11 exponent digits, all digit values", features=["default"], timeout=1800, id_suffix=key, tier="thorough")
     K("c19_parse_exponent_boundary", mod, ["C19"], "%s parse_exponent on 214748364d and 214748364dd (d symbolic), both signs: last exact values +2147483647 / -2147483648, beyond them saturation towards the exponent's own sign" % src, [src + "::parse_exponent"], strength="bounded", bound="10/11 digits with the concrete prefix 214748364", features=["default"], timeout=900, id_suffix=key)
+    K("c19_parse_exponent_leading_zeros", mod, ["C19"], "%s parse_exponent on digit runs of 11..16 digits whose leading digits are zeros and whose last four are symbolic, both signs: the result is the VALUE (no saturation by digit count)" % src, [src + "::parse_exponent"], strength="bounded", bound="11..16 exponent digits = concrete zero padding + 4 symbolic digits", features=["default"], timeout=900, id_suffix=key)
     K("c19_helpers", mod, ["C19"], "%s parse_sign / consume_digits / ltrim_zero / rtrim_zero on arbitrary bytes" % src, [src + "::parse_sign", src + "::consume_digits", src + "::ltrim_zero", src + "::rtrim_zero"], strength="bounded", bound="length <= 8", features=["default"], id_suffix=key)
 import staticscan as _ss
 X("c16_no_global_state", "static", _ss.run, ["C16"], "frame (syntactic): the crate's sources contain no `static mut`, interior-mutable static, thread-local, lazily initialised or lock-protected global: calls share no state, hence history- and schedule-independent", ["crate-wide"], strength="proved")
